@@ -33,7 +33,7 @@ TEXT = {
         design_ref='6.19', level_note=MAPPER_NOTE),
 }
 
-LOOP_NOTE = ('Trusted: Verus/Z3/rustc; the assembler (E1-E4 and the token weave); the Driver trait contract as the model of the environment (RealDriver meeting it is assumed); '
+LOOP_NOTE = ('Trusted: Verus/Z3/rustc; the assembler (E1-E4 and the token weave); the Driver trait contract as the model of the environment (RealDriver meeting it is assumed; it is exercised on every run with the real driver, readers, writer and loop on OS pipes - bounded, reported under bounded_or_enumerative); '
              'Instant/Duration as mathematical integers (axioms on AddSpec/SubSpec/PartialOrdSpec); Mapper used through its contracts (proved by the mapper unit). '
              'Environment assumptions: fewer than 50 interruptions between device events; monotonic clock; layout_ok. Witness search for the loop: a scripted Driver with seeded delivery schedules in the harness (loop_probe.rs); without a witness a failed obligation is reported with no-failing-input-found.')
 TEXT.update({
